@@ -11,7 +11,7 @@ from ..core import Prop
 from ..gen_cfg import gen_dict, gen_overlapping
 
 NCLS = 8
-KW_KEYS = ["a", "b", "opts", "x.y", "lim"]
+KW_KEYS = ["a", "b", "opts", "x.y", "lim", "resource_name", "name"]     # (option names a framework might be tempted to read)
 NAME_PARTS = ["foo", "bar", "n_1"]
 MODREF = "harness.impl.compmod:K{}"
 DYNREF = "harness.impl.compmod:KD{}"      # a module attribute that is bound to a fresh class for every case
